@@ -183,9 +183,11 @@ def _gen_scores_case(rng, i):
             ts.append(rng.randint(0, 64) / 64.0 if stream == "exact" else rng.random())
         else:
             ts.append(rng.choice([0.0, 1.0, -0.5, 1.5, 0.5]))
+    # the same query on a GroupScores object (a Scores subclass that sorts its arrays itself, after the parent constructor)
+    grouped = mixdt is None and ep == 0 and en == 0 and bool(pos) and bool(neg) and rng.random() < 0.15
     return {"op": "thrmetric", "stream": stream, "pos": pos, "neg": neg, "ep": ep, "en": en, "sc": sc, "ec": ec,
             "metric": metric, "via": via, "pk": pk, "k": k, "parr": parr, "ptype": ptype,
-            "ts": [float(t) for t in ts], "scalar": rng.random() < 0.3, "mixdt": mixdt}
+            "ts": [float(t) for t in ts], "scalar": rng.random() < 0.3, "mixdt": mixdt, "grouped": grouped}
 
 
 def gen_one(rng, i, tier):
@@ -223,6 +225,11 @@ def gen_one(rng, i, tier):
     dtype = "int" if (xk == "int" and yk == "int" and rng.random() < 0.3) else "float"
     if dtype == "int":
         ts = [float(math.floor(t)) for t in ts]
+    elif rng.random() < 0.06:
+        # function values and targets of tiny (or huge) magnitude, e.g. likelihoods ~1e-170: the solutions do not depend on
+        # the scale of y (power-of-two factor: exact), products of two differences underflow
+        k_ = rng.choice([2.0 ** -600, 2.0 ** -560, 2.0 ** 300])
+        y, ts = [v * k_ for v in y], [t * k_ for t in ts]
     return {"op": "invpl", "xk": xk, "yk": yk, "x": x, "y": y, "ts": ts, "dtype": dtype,
             "scalar": rng.random() < 0.3, "aslist": rng.random() < 0.2}
 
@@ -456,8 +463,14 @@ def _build_thrmetric(inp) -> Case:
     dts = {"posint": (int, float), "negint": (float, int), "posf4": (np.float32, float), "negf4": (float, np.float32),
            "i1": (np.int8, np.int8)}.get(
         inp.get("mixdt"), (float, float))
-    s = Scores(np.array(pos, dtype=dts[0]), np.array(neg, dtype=dts[1]), nb_easy_pos=inp["ep"], nb_easy_neg=inp["en"],
-               score_class=inp["sc"], equal_class=inp["ec"])
+    if inp.get("grouped"):
+        from score_analysis import GroupScores
+        s = GroupScores(np.array(pos, dtype=float), np.array(neg, dtype=float),
+                        pos_groups=["g%d" % (j % 3) for j in range(len(pos))], neg_groups=["g%d" % (j % 2) for j in range(len(neg))],
+                        score_class=inp["sc"], equal_class=inp["ec"])
+    else:
+        s = Scores(np.array(pos, dtype=dts[0]), np.array(neg, dtype=dts[1]), nb_easy_pos=inp["ep"], nb_easy_neg=inp["en"],
+                   score_class=inp["sc"], equal_class=inp["ec"])
     pre = []
     sig = f"thrmetric/{inp['pk']}"
     seen = []
